@@ -9,19 +9,19 @@ def reg(pid, group, cat, technique, text, note):
 
 L1 = "real core.Reconcile run over every (ancestor, alpha, beta) triple of a bounded shape (41x71x71, all four modes) and seeded random deep triples incl. phantom directories and executability propagation; "
 reg("C01","recon","exploration","runtime oracle over real reconciliation plans (lost-content rule, conflict presence) + real sessions on disk",
-    L1+"oracle: everything a two-way-safe plan removes or replaces equals the last-synchronized state, and both-modified paths carry a conflict and no change. Held on the executions observed; nothing is proved.",
+    L1+"oracle: everything a two-way-safe plan removes or replaces equals the last-synchronized state, and both-modified paths carry a conflict and no change. Held on the executions observed; nothing is proved. Also real sessions (real Manager, local endpoints, roots on disk, incl. staging on another device and entry limits) through random edit histories judged against the monitor's own shadow of the last agreement.",
     "trusts the harness's independent tree walkers (shallow equality, first-disagreement walk, Lost set) and core.Diff (itself checked by C07)")
 reg("C02","recon","exploration","runtime oracle over real reconciliation plans (direction, protected side)",
-    L1+"oracle: one-way plans hold no alpha change; one-way-safe never loses modified beta content; two-way-resolved never loses modified alpha content.",
+    L1+"oracle: one-way plans hold no alpha change; one-way-safe never loses modified beta content; two-way-resolved never loses modified alpha content. Also: a real local endpoint created as the alpha side of a one-way session must refuse every Stage/Transition request and leave its root, its neighbourhood and the staging area untouched; and real one-way sessions on disk.",
     "trusts the harness's tree walkers; endpoint-level refusal of Stage/Transition on a one-way alpha is exercised by the L3 session histories when present")
 reg("C03","recon","exploration","runtime oracle over real reconciliation plans (no unsynchronizable content under a change, totality at disagreement paths)",
-    L1+"oracle: no change has untracked/problematic/phantom content at or below it on its endpoint; every first-disagreement path gets exactly the action its mode allows; problematic paths get none.",
+    L1+"oracle: no change has untracked/problematic/phantom content at or below it on its endpoint; every first-disagreement path gets exactly the action its mode allows; problematic paths get none. Also real sessions with ignored files, FIFOs, non-UTF-8 names and unportable links whose parents are deleted or retyped on the other side.",
     "trusts the harness's first-disagreement walk")
 reg("C04","recon","exploration","runtime oracle: ideal application of each real plan followed by a second real reconciliation (fixpoint, convergence)",
-    L1+"each plan is applied ideally by the harness and reconciled again with the real code: the second plan must be empty and two-way endpoints must agree outside conflicts and unsynchronizable paths.",
+    L1+"each plan is applied ideally by the harness and reconciled again with the real code: the second plan must be empty and two-way endpoints must agree outside conflicts and unsynchronizable paths. Also the real controller through scripted endpoints (follow-up cycle must neither stage nor transition nor change the archive) and real sessions on disk (per-cycle re-reconciliation of the archive on disk against fresh scans).",
     "ideal application is performed by the harness (gen.Set) and by the real core.Apply for the ancestor")
 reg("C05","recon","fault_enumeration","enumeration of per-change transition outcomes composed through the real core.Apply",
-    "for plans with 1..3 changes every assignment of outcomes {nothing, each prefix-closed sub-tree of new, each prefix-closed sub-tree of current} is folded into the ancestor with the real Apply in controller order; it must succeed, validate, and record each reported result exactly.",
+    "for plans with 1..3 changes every assignment of outcomes {nothing, each prefix-closed sub-tree of new, each prefix-closed sub-tree of current} is folded into the ancestor with the real Apply in controller order; it must succeed, validate, and record each reported result exactly. Also through the real controller (scripted endpoints): the archive loaded from disk must record exactly what each endpoint reported.",
     "composition order is copied from controller.synchronize; a reordering inside the controller itself is only visible to the controller-level (L2) monitor")
 reg("C06","recon","exploration","runtime oracle over real reconciliation plans (action disjointness, conflict well-formedness)",
     L1+"oracle: no two actions at equal or nested paths across alpha changes, beta changes and conflict roots; conflicts valid, two-sided, rooted at a first-disagreement path with inner changes beneath.",
@@ -33,18 +33,18 @@ reg("C16","recon","exploration","reference-model comparison (lexical POSIX resol
     "every target over tokens {name, ., .., empty} up to length 6 (quick) / 8 (thorough) at link depths 0..3, plus random long and hostile targets: accepted implies the reference resolves inside the root; empty/absolute/over-long/colon/backslash targets rejected.",
     "uses the verif-tagged export VerifNormalizeSymbolicLink; lexical resolution (name components that are themselves links are outside the stated property)")
 reg("C18","recon","exploration","runtime invariant over simulated multi-cycle histories driving the real PropagateExecutability and Reconcile",
-    "random histories of edits/chmods on a preserving and a non-preserving endpoint, all modes and both role assignments: no plan changes the preserving side's bit where its content is unmodified or equal to the incoming content; the propagated tree takes bits only from matching content.",
+    "random histories of edits/chmods on a preserving and a non-preserving endpoint, all modes and both role assignments: no plan changes the preserving side's bit where its content is unmodified or equal to the incoming content; the propagated tree takes bits only from matching content. Also through the real controller with exactly one preserving scripted endpoint (transitions sent to it and bits recorded in the archive).",
     "endpoints are simulated (ideal transitions, non-preserving snapshot reports executable=false)")
 
 reg("C14","ignore","exploration","reference-model comparison (independent last-match-wins matcher) + real scans watched by an inotify sensor",
-    "the real Mutagen-style Ignorer vs an independent reference over 2*10^5 (quick) random (pattern list, path, dir flag) cases from a restricted glob grammar; real scans of random trees with those patterns: an ignored directory is one untracked entry, nothing beneath it is in the snapshot or digest cache, inotify records no open/access inside ignored directories (control directories must record them), VCS directories untracked at every depth.",
+    "the real Mutagen-style Ignorer vs an independent reference over 2*10^5 (quick) random (pattern list, path, dir flag) cases from a restricted glob grammar; real scans of random trees with those patterns: an ignored directory is one untracked entry, nothing beneath it is in the snapshot or digest cache, inotify records no open/access inside ignored directories (control directories must record them), VCS directories untracked at every depth. Also accelerated rescans (baseline + ignore cache, recheck = parent only / the entry itself) after an entry changed kind.",
     "the reference matcher is the harness's own for the unambiguous sub-grammar; one disagreement class rooted in the pinned doublestar dependency is a recorded known finding (negated classes matching '/')")
 reg("C15","ignore","exploration","reference-model comparison against a frozen copy of the upstream moby pattern matcher + Docker's directory-walk rule",
-    "random .dockerignore lists x random trees: real dockerignore.NewIgnorer -> core.Scan -> ReifyPhantomDirectories (nil and populated ancestor) vs the frozen upstream matcher with the build-context walk; every disagreeing path is classified with a second model (mutagen's documented algorithm): equal to it = the recorded known finding (no parent inheritance), different = new violation.",
+    "random .dockerignore lists x random trees: real dockerignore.NewIgnorer -> core.Scan -> ReifyPhantomDirectories (nil and populated ancestor) vs the frozen upstream matcher with the build-context walk; every disagreeing path is classified with a second model (mutagen's documented algorithm): equal to it = the recorded known finding (no parent inheritance), different = new violation. Also accelerated rescans with the previous ignore cache for re-inclusions several levels below an excluded directory.",
     "frozen copy of patternmatcher.go (Apache-2.0) under internal/ignorex; pattern grammar restricted to what both sides define (no backslashes, comments)")
 
 reg("C08","fsops","exploration","disk re-observation after the real core.Transition with interference injected between scan and transition",
-    "random disk trees -> real core.Scan -> plan from the snapshot -> interference on planned paths (edit with unique token, same-size edit, chmod, new inode with equal size+mtime, link retarget, new child in a directory to be removed, file->directory, objects appearing at creation paths) -> real core.Transition; every interfered object must be exactly as the interference left it and a problem reported; non-interfered transitions must be carried out. Also as uid 65534.",
+    "random disk trees -> real core.Scan -> plan from the snapshot -> interference on planned paths (edit with unique token, same-size edit, chmod, new inode with equal size+mtime, link retarget, new child in a directory to be removed, file->directory, objects appearing at creation paths) -> real core.Transition; every interfered object must be exactly as the interference left it and a problem reported; non-interfered transitions must be carried out. Also as uid 65534. Also multi-scan sequences (stale cache entries), sub-second mtime changes, long link targets, temporary-named children, and the same cycle at the endpoint level with the poll watcher rescanning between Scan and Transition.",
     "interference during (not before) the transition - the check-then-act windows the repository documents - is not attacked")
 reg("C12","fsops","exploration","reference-model comparison: real core.Scan vs an independent lstat/readdir/readlink/sha1 walker",
     "random trees (files, modes incl. group/other-only x bits, links of every portability class, FIFOs, non-UTF-8 names, temporary names, ignored names) x 3 symlink modes x 2 permissions modes x 2 probe modes; entries, digests, executability, link targets, untracked/problematic classification, four counters and the digest cache must agree; mode-000 content judged in an unprivileged child.",
